@@ -37,4 +37,9 @@ theorem Pack_sizeClamp_translated (size : Nat) :
     simp only [Id.run]
     by_cases h1 : size > 0 <;> by_cases h2 : size < 512 <;> simp_all <;> rfl
 
+/-- the 14-bit guard `newPtr <= int(^uint16(0)>>2)` of `Name.pack` is the model's `pos ≤ ptrLimit` -/
+theorem ptrFits_translated (pos : Nat) : decide (pos ≤ ptrLimit) = Translated.c02_ptrFits pos := by
+  unfold Translated.c02_ptrFits ptrLimit
+  rfl
+
 end MosVerif.Wire
